@@ -311,12 +311,9 @@ loop:
 				opts = append(opts, e)
 			}
 		}
-		i := 0
-		if len(opts) > 1 {
-			i = s.strat.PickThread(opts, last, curOK, len(s.steps))
-			if i < 0 || i >= len(opts) {
-				i = 0
-			}
+		i := s.strat.PickThread(opts, last, curOK, len(s.steps))
+		if i < 0 || i >= len(opts) {
+			i = 0
 		}
 		s.decs = append(s.decs, Decision{Kind: "thread", Options: opts, Chosen: i, Cur: last, CurOK: curOK})
 		t := s.threads[opts[i]]
